@@ -314,7 +314,9 @@ def run(ck, facts):
     f = tool.fn("cpp::ty::TyGenContext::gen_c_to_cpp_for_return_type")
     for n in C.walk(C.fn_body(f)):
         if n.get("k") == "letst" and n["pat"].get("k") == "bind" and n["pat"]["n"] in ("ok_conversion", "err_conversion", "conversion"):
-            lits = [s for s in C.str_lits(n["init"]) if "{var_name}." in s]
+            lits = [l_ for x in C.walk_inl(tool, n["init"], 1, exclude=[f["path"]]) for l_ in ([x["v"]] if x.get("k") == "lit" and x.get("t") == "str" else ([x.get("src", "")] if x.get("k") == "macro" and x.get("name") == "format" else []))
+                    if re.search(r"\{var_name\}\.\w+", l_)]
+            lits = [re.search(r"(\{var_name\}\.\w+)", l_).group(1) for l_ in lits]
             want = ".err" if n["pat"]["n"].startswith("err") else ".ok"
             ck.expect(lits and all(s.endswith("{var_name}" + want) for s in lits), "R5", "cpp::gen_c_to_cpp_for_return_type/%s" % n["pat"]["n"], str(lits), "`%s` reads %s, expected the `%s` arm" % (n["pat"]["n"], lits, want), C.loc(f, n.get("ln")))
 
